@@ -4,7 +4,20 @@ import json, os
 V = os.path.dirname(os.path.dirname(os.path.abspath(__file__)))
 props = [json.loads(l) for l in open(os.path.join(V, "properties.jsonl"))]
 
+FIND_NOTE = "Trusted: harness/findops.py rendering/projection (numpy; un-rendering positions to integers, lattice vectors and rotation residual in floating point), TLC. Crystals are lattice crystals (integer coordinates, cube-group poses, seeded random global rotations / pattern motions on top); tolerance classes keep atol <= 1/32 lattice unit so every candidate is either exact or clearly outside. Sub-lattice near misses (distances within tolerance, positions not) are not generated."
 CHECKS = {
+ "C01": dict(engine="findops", ref="DESIGN.md 4/C01, 3.4",
+   technique="TLA+ spec Find (exact integer congruence) + TLC model checking of MC_Find; TLC-generated crystals searched by mofun under many representations; every answer validated by TLC (Trace_Find)",
+   text="TLC builds crystals (planted copies in all 24 cube poses across faces/edges/corners, mirror decoys, near misses, distractors) and every answer of the real search is judged by TLC against the definition: distinct atoms, elements in pattern order, returned positions = stored position + lattice vector, exact squared distances and orientation signs at those images (so a mirror image is rejected), rotation witness within tolerance.",
+   note=FIND_NOTE),
+ "C02": dict(engine="findops", ref="DESIGN.md 4/C02, 3.4",
+   technique="TLC model checking of the search design (AlgoGroups = DefGroups under the width precondition, negative control refuted) + TLC trace validation of answers: reported groups = DefGroups, each once",
+   text="On the model TLC proves (bounded) that 27 images + home-cell starts + grouping find every occurrence of the definition exactly once when widths exceed diameter + 2 tol, and refutes it for a too narrow cell; on the code every answer must have exactly the groups of the definition computed by TLC on the same crystal, none twice, none missing, none spurious.",
+   note=FIND_NOTE),
+ "C03": dict(engine="findops", ref="DESIGN.md 4/C03",
+   technique="TLC action property ShiftInvariant on MC_Find + TLC trace validation of searches on shifted / permuted / re-posed / hinted / reseeded / replicated representations of the same crystal",
+   text="The same abstract crystal is searched under atom permutations, exact cube and random rigid motions of the pattern, global rotations, jitter, all kinds of hint triples (incl. index 0 and partial hints), RNG seeds, shifted-and-wrapped copies (TLC action property on the model) and real supercells from Atoms.replicate; TLC judges each answer against DefGroups of the abstract crystal, and supercell counts against a*b*c times the unit-cell count.",
+   note=FIND_NOTE + " Real MOF files are not yet part of this check."),
  "C09": dict(engine="atomsops", ref="DESIGN.md 4/C09, 3.2",
    technique="TLA+ spec AtomsAbs model-checked with TLC; TLC-generated histories replayed into mofun.Atoms; every observed transition validated by TLC (Trace_AtomsAbs)",
    text="TLC explores every history of Atoms operations (construct, extend in all modes and identity maps, delete every subset, pop, replicate, subset, copy) within small bounds on the property-level spec and checks its invariants and action properties; each explored history is executed on the real class and every observed transition must be a transition of the spec from the abstraction of the observed pre-state (type ids resolved through the tables by TLC, so stale or misaligned tables show as a wrong label/coefficient text). Bounded-exhaustive, not a proof.",
@@ -28,7 +41,9 @@ m = {"version": 1,
      "hooks": {"guard": "MOFUN_VERIF", "enable": "no source hooks are needed: the harness imports /repo in place (editable install) and observes public state; bin/check exports MOFUN_VERIF=1",
                "baseline_off_cmd": "cd /repo && /venv/bin/python -m pytest -ra -q -p no:cacheprovider --timeout=900 --continue-on-collection-errors",
                "source_commits": [], "add_only": True},
-     "engines": [{"name": "atomsops", "path": "harness/atomsops.py", "serves_properties": ["C09", "C10", "C11", "C12"],
+     "engines": [{"name": "findops", "path": "harness/findops.py", "serves_properties": ["C01", "C02", "C03"],
+                  "kind_free_text": "TLC model checking of the search design + TLC validation of observed answers"},
+                 {"name": "atomsops", "path": "harness/atomsops.py", "serves_properties": ["C09", "C10", "C11", "C12"],
                   "kind_free_text": "TLC model checking + spec->code replay + code->spec trace validation"}],
      "checks": [], "not_applicable": [],
      "notes": "All checks: bin/check <id> --tier quick|thorough. Exit 0 held / 1 violation / 2 machinery failure. See DESIGN.md."}
